@@ -358,7 +358,10 @@ def _isolated_work(job):
         if hit is None and specs:
             stats["inconclusive:crash-not-reproduced"] = 1
             return {"n": n, "cases": [], "fails": [], "stats": stats, "specs": specs}
-        return {"n": n, "cases": [], "fails": [["crash:" + r["crash"], "interpreter died when running the instrumented code", hit]],
+        cause = I.crash_cause(src, path, specs[hit]) if hit is not None else ""
+        return {"n": n, "cases": [], "fails": [["crash:" + r["crash"] + cause, "interpreter died when running the instrumented code"
+                                                + ("; it also dies on the code that only went through bytecode's from_code/to_code round trip"
+                                                   if cause else ""), hit]],
                 "stats": stats, "specs": specs}
     if "inconclusive" in r:
         stats["inconclusive:" + r["inconclusive"]] = stats.get("inconclusive:" + r["inconclusive"], 0) + 1
